@@ -36,6 +36,7 @@ mod g_server;
 mod g_srvscan;
 mod g_srvsafe;
 mod g_srvtsig;
+mod g_srvans;
 mod g_zonefile;
 mod g_include;
 mod g_pool;
@@ -79,6 +80,7 @@ fn main() {
             "srvedns" => g_srvscan::gen_edns(&mut rng, thorough, &mut em),
             "srvsafe" => g_srvsafe::gen(&mut rng, thorough, &mut em),
             "srvtsig" => g_srvtsig::gen(&mut rng, thorough, &mut em),
+            "srvans" => g_srvans::gen(&mut rng, thorough, &mut em),
             "serverdbg" => g_server::debug_big(&mut rng),
             "zonefile" => g_zonefile::gen(&mut rng, thorough, &mut em),
             "include" => g_include::gen(&mut rng, thorough, &mut em),
@@ -152,6 +154,9 @@ pub fn run_case(case: &str) -> String {
         return r;
     }
     if let Some(r) = g_srvtsig::run(op, &args) {
+        return r;
+    }
+    if let Some(r) = g_srvans::run(op, &args) {
         return r;
     }
     if let Some(r) = g_zonefile::run(op, &args) {
